@@ -21,6 +21,19 @@ def items(tier):
             sp = F.with_teams(fl, lay)
             for rule in rules:
                 out.append((sp, {"rule": rule, "max_time": F.seq_bound(sp) + 8}))
+    # the order of the entries inside input_task_list (links declared in reverse order) and of task_list
+    for fl in F.flows(3, F.KINDS4, (2, 1)):
+        if len([1 for i, j, k in fl["links"] if j == 2]) < 2:
+            continue
+        fl2 = dict(fl, links=list(reversed(fl["links"])))
+        for lay in ("POOL1", "POOL2"):
+            sp = F.with_teams(fl2, lay)
+            out.append((sp, {"rule": "TSLACK", "max_time": F.seq_bound(sp) + 8}))
+            out.append((dict(sp, order=[2, 1, 0]), {"rule": "SPT", "max_time": F.seq_bound(sp) + 8}))
+    # an automatic task that belongs to a placed component
+    for sp in F.auto_component_specs():
+        for aa in (False, True):
+            out.append((sp, {"rule": "TSLACK", "auto_abs": aa, "max_time": F.seq_bound(sp) + 10}))
     # zero-work (milestone) tasks: not exempt - their default progress is 0 - so they must wait like any other task
     for fl in F.flows(3, F.KINDS4, (0, 2)):
         if all(t["work"] > 0 for t in fl["tasks"]):
